@@ -183,6 +183,13 @@ def run(case, sim):
                          "t0": fr["t_deliver"], "t1": hi, "t_ok": mine[0][0]})
     subs.sort(key=lambda s: s["t0"])
     accepted_ids = {s["ev"]["id"] for s in subs if s["ok"] is True and isinstance(s["ev"], dict) and isinstance(s["ev"].get("id"), str)}
+    # (a submission without an id field is stored under the id the relay computes: take the ids
+    #  the relay acknowledged, not only the ones that were submitted)
+    for c in w.clients[1:]:
+        for seq, t in c.transcript:
+            m = parse(t)
+            if isinstance(m, list) and len(m) == 4 and m[0] == "OK" and m[2] is True and isinstance(m[1], str):
+                accepted_ids.add(m[1])
     acc_events = [s["ev"] for s in subs if s["ok"] is True and isinstance(s["ev"], dict)]
     n_true = n_false = 0
     for s in subs:
